@@ -202,6 +202,35 @@ def v1_round_trip(value, position):
         return {'error': '%s: %s' % (type(e).__name__, e)}
 
 
+def v1_storage_round_trip(value, position):
+    """A legacy (version 1) signature as an old installation stored it - pickle
+    protocol 0, kept as text - written into the version table by raw SQL and read
+    back through the model field."""
+    import pickle
+    from django.db import connection
+    from django.utils import timezone
+    from django_evolution.diff import Diff
+    from django_evolution.models import Version
+    sig = build_signature(value, position)
+    out = {}
+    try:
+        v1 = sig.serialize(sig_version=1)
+        text = pickle.dumps(v1, protocol=0).decode('latin1')
+        with connection.cursor() as cur:
+            cur.execute('INSERT INTO django_project_version (signature, "when") VALUES (%s, %s)',
+                        [text, timezone.now()])
+            pk = cur.lastrowid
+        back = Version.objects.get(pk=pk).signature
+        Version.objects.filter(pk=pk).delete()
+        d1, d2 = Diff(sig, back), Diff(back, sig)
+        out['diff_empty'] = d1.is_empty(ignore_apps=False) and d2.is_empty(ignore_apps=False)
+        out['diff'] = [str(d1), str(d2)]
+        out['eq'] = bool(back == sig)
+    except Exception as e:
+        out['error'] = '%s: %s' % (type(e).__name__, e)
+    return out
+
+
 # ---------------------------------------------------------------------------
 # C13
 
